@@ -86,15 +86,20 @@ pub fn run(ws: &Ws, seed: u64) -> Result<i32, String> {
         if r.crashed().is_some() {
             println!("selftest: random program {k} (inject {inject}) crashes the compiler: {}", r.crashed().unwrap());
         }
-        if inject == 0 {
+        if p.class == Class::Clean {
             ok_n += 1;
             ok_acc += accepted as u32;
             if !accepted {
+                bad += 1;
                 println!("selftest: random program {k} without injected error is rejected: {:?}", diags.iter().filter(|d| d.error).map(|d| format!("{}:{}", d.code, d.message)).collect::<Vec<_>>());
             }
         } else {
             bad_n += 1;
             bad_rej += (!accepted) as u32;
+            if accepted {
+                bad += 1;
+                println!("selftest: random program {k} with injected error {inject} is accepted");
+            }
         }
     }
     println!("selftest: random programs: {ok_acc}/{ok_n} without injected error accepted, {bad_rej}/{bad_n} with injected error rejected");
